@@ -15,6 +15,11 @@ Streams (all from chk.rng):
   e2e     iCE40/IceStorm, ECP5/Trellis, Gowin/Apicula: a design performs the requests, uses the ports,
           `platform.build(..., do_build=False)`; the rendered .pcf/.lpf/.cst and the top-level ports of the
           emitted RTLIL are parsed and compared with the model's constraint bits and clocks.
+  shared  ONE list of Resource objects (Pins, PinsN, DiffPairs legs with connector-relative names) given to 2-3
+          ResourceManagers / platform classes whose connector tables name the same connectors and pins but wire
+          them differently; requests on every manager (interleaved), every manager judged like a `hist` case
+          against the model run on its own table (`names-shared`: one Pins object mapped through 2-3 tables;
+          `e2e shared`: 2-3 platforms build designs from the shared descriptions).
 """
 import json
 import os
@@ -240,9 +245,37 @@ def gen_connectors(rng, pool, n_max=3, allow_missing=True):
     return conns
 
 
-def gen_names(rng, pool, conns, width, p_missing):
+def vary_connectors(rng, conns, pool):
+    """another connector table with the same connector names and the same pin keys, wired differently: every
+    connector sits on the platform or on a later connector (re-drawn), every pin goes somewhere else (re-drawn).
+    Used for platforms that share resource descriptions."""
+    n = len(conns)
+    out = [None] * n
+    for idx in reversed(range(n)):
+        c = conns[idx]
+        parent = None
+        if idx + 1 < n and rng.random() < 0.6:
+            parent = rng.randrange(idx + 1, n)
+            if not conns[parent]["_keys"]:
+                parent = None
+
+        def target():
+            if parent is None:
+                return rng.choice(pool)
+            return rng.choice(conns[parent]["_keys"]) if rng.random() < 0.93 else "9"
+        kind, items = c["io"]
+        if kind == "seq":
+            io = ("seq", [tk if tk == "-" else target() for tk in items])
+        else:
+            io = ("dict", [(k, target()) for k, _v in items])
+        out[idx] = {"name": c["name"], "number": c["number"], "io": io, "_keys": list(c["_keys"]),
+                    "conn": None if parent is None else (conns[parent]["name"], conns[parent]["number"])}
+    return out
+
+
+def gen_names(rng, pool, conns, width, p_missing, p_conn=0.4):
     """(names, conn) for one Pins: platform pins or pins of one connector"""
-    if conns and rng.random() < 0.4:
+    if conns and rng.random() < p_conn:
         c = rng.choice(conns)
         ks = c["_keys"]
         names = []
@@ -273,40 +306,42 @@ def gen_attrs(rng, p=0.4, none_ok=False):
     return out
 
 
-def gen_leaf(rng, name, pool, conns, p_missing, none_attrs=False, clock_ok=True):
+def gen_leaf(rng, name, pool, conns, p_missing, none_attrs=False, clock_ok=True, p_conn=0.4):
     width = rng.choice([0, 1, 1, 1, 1, 2, 2, 3])
     d = rng.choice(DIRS)
     if rng.random() < 0.3:
         width = max(width, 1) if rng.random() < 0.9 else width
-        pn, conn = gen_names(rng, pool, conns, 2 * width, p_missing)
+        pn, conn = gen_names(rng, pool, conns, 2 * width, p_missing, p_conn)
         phys = {"t": "diff", "p": pn[:width], "n": pn[width:], "conn": conn}
     else:
-        names, conn = gen_names(rng, pool, conns, width, p_missing)
+        names, conn = gen_names(rng, pool, conns, width, p_missing, p_conn)
         phys = {"t": "pins", "names": names, "conn": conn}
     return {"t": "leaf", "name": name, "attrs": gen_attrs(rng, none_ok=none_attrs), "phys": phys, "dir": d,
             "invert": rng.random() < 0.3,
             "clock": rng.choice(PERIODS) if clock_ok and rng.random() < 0.3 else None}
 
 
-def gen_node(rng, name, pool, conns, depth, p_missing, none_attrs=False):
+def gen_node(rng, name, pool, conns, depth, p_missing, none_attrs=False, p_conn=0.4):
     if depth > 0 and rng.random() < (0.45 if depth == 2 else 0.3):
         k = rng.randint(1, 3)
-        subs = [gen_node(rng, sn, pool, conns, depth - 1, p_missing, none_attrs)
+        subs = [gen_node(rng, sn, pool, conns, depth - 1, p_missing, none_attrs, p_conn)
                 for sn in rng.sample(SUB_NAMES, k)]
         return {"t": "group", "name": name, "attrs": gen_attrs(rng, 0.3, none_attrs), "subs": subs}
-    return gen_leaf(rng, name, pool, conns, p_missing, none_attrs)
+    return gen_leaf(rng, name, pool, conns, p_missing, none_attrs, p_conn=p_conn)
 
 
-def gen_table(rng, probes=True, p_missing=0.04, none_attrs=False, n_pool=None):
+def gen_table(rng, probes=True, p_missing=0.04, none_attrs=False, n_pool=None, p_conn=0.4, min_conns=0):
     pool = rng.sample(PIN_POOL, n_pool or rng.randint(4, 10))
     conns = gen_connectors(rng, pool)
+    while len(conns) < min_conns:
+        conns = gen_connectors(rng, pool)
     keys = []
     n = rng.randint(2, 6)
     while len(keys) < n:
         k = (rng.choice(RES_NAMES), rng.choice([0, 0, 1, 2, -1]))
         if k not in keys:
             keys.append(k)
-    resources = [{"number": num, "body": gen_node(rng, name, pool, conns, 2, p_missing, none_attrs)}
+    resources = [{"number": num, "body": gen_node(rng, name, pool, conns, 2, p_missing, none_attrs, p_conn)}
                  for name, num in keys]
     if probes:
         for i, p in enumerate(pool):
@@ -824,9 +859,10 @@ def judge_history(chk, tag, t, reqs, real, m, extra=None):
 PLATFORMS = ("ice40", "ecp5", "gowin")
 
 
-def make_platform(kind, t, default_clk):
+def make_platform(kind, t, default_clk, shared_res=None):
+    """shared_res: Resource objects that were built once and are given to several platforms"""
     from amaranth.vendor import SiliconBluePlatform, LatticePlatform, GowinPlatform
-    res = build_resources(t)
+    res = build_resources(t) if shared_res is None else shared_res
     conns = build_connectors(t["connectors"])
     if kind == "ice40":
         class P(SiliconBluePlatform):
@@ -912,7 +948,7 @@ def parse_rtlil_top_ports(text):
     return ports
 
 
-def e2e_case_real(args):
+def e2e_case_real(args, shared_res=None):
     """(runs in a worker) returns the observation of one end-to-end case"""
     kind, t, reqs, default_clk, use_mask, buf_dirs, user_ports = args
     import warnings
@@ -921,7 +957,7 @@ def e2e_case_real(args):
     from amaranth.lib import io
     from amaranth.build.res import PortGroup
     try:
-        platform, fname = make_platform(kind, t, default_clk)
+        platform, fname = make_platform(kind, t, default_clk, shared_res)
     except Exception as e:  # noqa: BLE001
         return {"setup_error": common.errkind(e) + ": " + str(e)[:200]}
     log = []
@@ -1223,7 +1259,7 @@ def judge_e2e(chk, kind, t, reqs, default_clk, real, m, n_elab):
 # ================================================================================================
 # connector chains
 
-def gen_chain_case(rng):
+def gen_chain_case(rng, want_pool=False):
     pool = rng.sample(PIN_POOL, 5)
     conns = gen_connectors(rng, pool, n_max=3)
     # deeper chains, explicitly
@@ -1248,6 +1284,8 @@ def gen_chain_case(rng):
             names.append(f"{c['name']}_{c['number']}:{key}")
         else:
             names.append(rng.choice(pool))
+    if want_pool:
+        return conns, names, pool
     return conns, names
 
 
@@ -1325,6 +1363,44 @@ def _real_hist_worker(args):
         return {"crash": common.errkind(e), "tb": traceback.format_exc()[-1500:]}
 
 
+def _shared_hist_worker(args):
+    """ONE list of Resource objects, several ResourceManagers with their own connector tables; the requests of all
+    managers interleaved in `order` (a list of manager indices)"""
+    t, conn_tables, reqs_list, order = args
+    import warnings
+    warnings.filterwarnings("ignore")
+    try:
+        from amaranth.build.res import ResourceManager
+        res = build_resources(t)
+        rms = [ResourceManager(res, build_connectors(c)) for c in conn_tables]
+        outs = [{"conn_pins": [[k, v] for k, v in rm._conn_pins.items()] if hasattr(rm, "_conn_pins") else None, "steps": []}
+                for rm in rms]
+        pos = [0] * len(rms)
+        for k in order:
+            rq = reqs_list[k][pos[k]]
+            pos[k] += 1
+            o, _v = do_request(rms[k], t, rq)
+            outs[k]["steps"].append({"out": o, "state": obs_state(rms[k])})
+        return outs
+    except Exception as e:  # noqa: BLE001
+        import traceback
+        return {"crash": common.errkind(e), "tb": traceback.format_exc()[-1500:]}
+
+
+def _shared_e2e_worker(args):
+    """ONE list of Resource objects given to several platform classes (each with its own connectors); every
+    platform builds its own design from its own requests, one after the other in this process"""
+    t, plats = args                      # plats: [(kind, connectors, reqs, use_mask, buf_dirs)]
+    import warnings
+    warnings.filterwarnings("ignore")
+    res = build_resources(t)
+    out = []
+    for kind, conns, reqs, use_mask, buf_dirs in plats:
+        tk = {**t, "connectors": conns}
+        out.append(e2e_case_real((kind, tk, reqs, None, use_mask, buf_dirs, []), shared_res=res))
+    return out
+
+
 def run(chk):
     if not chk.lean():
         chk.not_shown("Lean build of Properties/C19 failed", chk.build_log[-3000:])
@@ -1336,6 +1412,8 @@ def run(chk):
     n_attrs = 12 if quick else 80
     n_names = 300 if quick else 8000
     n_e2e = 24 if quick else 400           # per platform
+    n_shared = 50 if quick else 2500       # resource descriptions shared by 2-3 managers
+    n_shared_e2e = 6 if quick else 150     # ... by 2-3 platforms, end to end
 
     import time
     t_stage = [time.time()]
@@ -1495,6 +1573,119 @@ def run(chk):
 
     clk_boundary = witness_clock_on_colliding_name(chk)
     stage("e2e")
+
+    # ---- descriptions shared between platforms -------------------------------------------------------
+    # The same Pins / Resource *objects* are given to 2-3 managers (platforms) whose connector tables have the same
+    # connectors wired differently; every manager must resolve them through its own table. The model is run once per
+    # manager on (resources, its connectors, its requests).
+    def pins_objects(t):
+        n = 0
+        for r in t["resources"]:
+            for _path, lf in node_leaves(r["body"]):
+                if lf["phys"]["conn"] is not None:
+                    n += 1 if lf["phys"]["t"] == "pins" else 2
+        return n
+
+    names_family = []
+    for _ in range(n_names // 3):
+        conns, names, pool = gen_chain_case(rng, want_pool=True)
+        tables = [conns] + [vary_connectors(rng, conns, pool) for _ in range(rng.choice([1, 1, 2]))]
+        rng.shuffle(tables)
+        names_family.append((tables, names))
+    flines = ["(names " + ser_conns(c) + " auto" + "".join(" " + q(n) for n in names) + ")"
+              for tables, names in names_family for c in tables]
+    fresps = iter(chk.driver.ask(flines))
+    for tables, names in names_family:
+        pobj = Pins("X")
+        pobj.names = list(names)
+        results = []
+        for k, conns in enumerate(tables):
+            m = json.loads(next(fresps))
+            try:
+                rm = ResourceManager([], build_connectors(conns))
+                impl = {"ok": True, "names": pobj.map_names(rm._conn_pins, None)}
+            except Exception as e:  # noqa: BLE001
+                impl = {"ok": False, "err": common.errkind(e)}
+            chk.count()
+            results.append(json.dumps(m["result"], sort_keys=True))
+            if impl != m["result"]:
+                report(chk, f"map_names({names}) on the {k + 1}. of {len(tables)} connector tables given to one Pins object = {impl} "
+                            f"but the chain resolves to {m['result']}",
+                       {"stream": "names-shared", "connector_tables": [ser_conns(c) for c in tables], "table": k, "names": names,
+                        "impl": impl, "model": m["result"]})
+        chk.distinct(("names-shared", tuple(ser_conns(c) for c in tables), tuple(names)), nontrivial=len(set(results)) > 1)
+        chk.hist("shared Pins object: connector tables", len(tables))
+        chk.hist("shared Pins object: resolutions differ between the tables", len(set(results)) > 1)
+
+    scases = []
+    for _ in range(n_shared):
+        t = gen_table(rng, p_conn=0.8, min_conns=1)
+        nplat = rng.choice([2, 2, 3])
+        tables = [t["connectors"]] + [vary_connectors(rng, t["connectors"], t["pool"]) for _ in range(nplat - 1)]
+        rng.shuffle(tables)
+        reqs_list = []
+        for _k in range(nplat):
+            reqs_list.append(gen_history(rng, t, rng.randint(2, 6), p_fault=rng.choice([0.0, 0.05]), dash_bias=0.5) + sweep(t))
+        order = [k for k in range(nplat) for _ in reqs_list[k]]
+        if rng.random() < 0.7:
+            rng.shuffle(order)               # interleaved; otherwise one manager after the other
+        scases.append((t, tables, reqs_list, order))
+    slines = [ser_hist({**t, "connectors": c}, rq) for t, tables, reqs_list, _o in scases for c, rq in zip(tables, reqs_list)]
+    sresps = iter(chk.driver.ask(slines))
+    with ProcessPoolExecutor(max_workers=min(16, os.cpu_count() or 4)) as ex:
+        sreals = list(ex.map(_shared_hist_worker, scases, chunksize=4))
+    for (t, tables, reqs_list, order), reals_k in zip(scases, sreals):
+        ms = [json.loads(next(sresps)) for _ in tables]
+        if isinstance(reals_k, dict):
+            chk.not_shown("C19: constructing managers over shared resources crashed", {"hist": ser_hist(t, []), **reals_k})
+            continue
+        labels = []
+        for k, (conns, reqs, real, m) in enumerate(zip(tables, reqs_list, reals_k, ms)):
+            tk = {**t, "connectors": conns}
+            chk.count(len(reqs))
+            labels.append(judge_history(chk, "shared", tk, reqs, real, m,
+                                        extra={"manager": k, "managers": len(tables), "order": order,
+                                               "all_connector_tables": [ser_conns(c) for c in tables],
+                                               "note": "one list of Resource objects, built once, given to every manager"}))
+        differ = len({json.dumps(m["conn_pins"], sort_keys=True) for m in ms}) > 1
+        chk.distinct(("shared", ser_table(t), tuple(ser_conns(c) for c in tables), tuple(ser_hist(t, r) for r in reqs_list), tuple(order)),
+                     nontrivial=differ and pins_objects(t) > 0)
+        chk.hist("stream", "shared")
+        for lb in labels:
+            chk.hist("result:shared", lb)
+        chk.hist("shared: managers per description", len(tables))
+        chk.hist("shared: connector tables resolve differently", differ)
+        chk.hist("shared: connector-relative Pins objects in the description", min(pins_objects(t), 8))
+        chk.hist("shared: request order", "interleaved" if order != sorted(order) else "one manager after the other")
+    stage("shared")
+
+    secases = []
+    for _ in range(n_shared_e2e):
+        t = gen_table(rng, probes=False, p_missing=0.0, p_conn=0.8, min_conns=1)
+        nplat = rng.choice([2, 2, 3])
+        tables = [t["connectors"]] + [vary_connectors(rng, t["connectors"], t["pool"]) for _ in range(nplat - 1)]
+        rng.shuffle(tables)
+        plats = []
+        for c in tables:
+            plats.append((rng.choice(PLATFORMS), c, gen_history(rng, t, rng.randint(2, 6), p_fault=0.0, dash_bias=0.8),
+                          [rng.random() < 0.9 for _ in range(7)], [rng.choice(["i", "o", "io"]) for _ in range(5)]))
+        secases.append((t, plats))
+    selines = [ser_hist({**t, "connectors": c}, rq) for t, plats in secases for _k, c, rq, _u, _b in plats]
+    seresps = iter(chk.driver.ask(selines))
+    with ProcessPoolExecutor(max_workers=min(16, os.cpu_count() or 4)) as ex:
+        sereals = list(ex.map(_shared_e2e_worker, secases, chunksize=1))
+    for (t, plats), reals_k in zip(secases, sereals):
+        for (kind, conns, reqs, _u, _b), real in zip(plats, reals_k):
+            resp = next(seresps)
+            if resp.startswith("error"):
+                raise common.Infra(f"driver rejected a history: {resp}")
+            chk.count()
+            label = judge_e2e(chk, kind, {**t, "connectors": conns}, reqs, None, real, json.loads(resp), len(reqs))
+            chk.hist("e2e shared:" + kind, label)
+            nlocs = len(parse_constraints(kind, real["text"])[0]) if "text" in real else 0
+            chk.distinct(("e2e-shared", kind, ser_hist({**t, "connectors": conns}, reqs)), nontrivial=nlocs > 0)
+        chk.hist("e2e shared: platforms per description", len(plats))
+    stage("shared e2e")
     flush_reports(chk)
     chk.cov["rule"] = (
         "hist: random tables (2-6 resources, nesting <=2, Pins/DiffPairs width 0-3, 0-3 connectors chained "
@@ -1503,9 +1694,13 @@ def run(chk):
         "shape: F7-shaped histories; attrs: None-valued attributes; names: map_names on random chains; "
         "e2e: 3 platforms x histories executed inside elaborate() (40% with resources whose derived IOPort names "
         "coincide, 35% with a user IOPort named like a requested one), constraint file and RTLIL ports parsed. "
+        "shared / names-shared / e2e shared: ONE list of Resource (Pins) objects given to 2-3 managers / platforms whose "
+        "connector tables name the same connectors and pins but wire them differently, requests interleaved, the model run "
+        "once per manager with its own table; "
         "distinct = canonical text of table+history; non-trivial = at least one grant and one refusal "
         "(hist), a connector-relative name (names), at least one constrained bit (e2e)")
-    chk.extra["tier_sizes"] = {"hist": n_hist, "shape": n_shape, "attrs": n_attrs, "names": n_names, "e2e_per_platform": n_e2e}
+    chk.extra["tier_sizes"] = {"hist": n_hist, "shape": n_shape, "attrs": n_attrs, "names": n_names, "e2e_per_platform": n_e2e,
+                               "shared": n_shared, "names_shared": n_names // 3, "shared_e2e": n_shared_e2e}
     chk.assumptions += [
         "sibling sub-signals of one (sub)signal have distinct names (with duplicates Python's dict/setattr aliasing "
         "shadows the earlier sibling's options and port; not modelled)",
